@@ -15,33 +15,6 @@ open ShapeEta
 
 /-! ## the individual-level names: cutting the special dimensions leaves `totHier` names -/
 
-theorem totDim_cons (s : SubModel) (ss : List SubModel) : totDim (s :: ss) = s.nDim + totDim ss := by
-  simp [totDim]
-theorem totHier_cons (s : SubModel) (ss : List SubModel) : totHier (s :: ss) = s.nHier + totHier ss := by
-  simp [totHier]
-
-theorem cutSpecial_length {β : Type} : ∀ (subs : List SubModel) (off cur : Nat) (names : List β),
-    cur ≤ off → names.length = off + totDim subs →
-    (cutSpecial (specialBlocks subs off) cur names).length = (off - cur) + totHier subs
-  | [], off, cur, names, h, hl => by
-    simp [specialBlocks, cutSpecial, totDim, totHier] at *
-    omega
-  | s :: ss, off, cur, names, h, hl => by
-    rw [totDim_cons] at hl
-    rw [totHier_cons]
-    unfold specialBlocks
-    cases hs : s.kind.hierarchical with
-    | true =>
-      simp only [if_true, List.nil_append, SubModel.nHier, hs]
-      have := cutSpecial_length ss (off + s.nDim) cur names (by omega) (by omega)
-      rw [this]; omega
-    | false =>
-      simp only [Bool.false_eq_true, if_false, List.singleton_append, cutSpecial, SubModel.nHier, hs,
-        List.length_append, List.length_take, List.length_drop]
-      have := cutSpecial_length ss (off + s.nDim) (off + s.nDim) names (Nat.le_refl _) (by omega)
-      rw [this]
-      omega
-
 /-- C17 (hierarchical objects): for every composition of population sub-models and every number
     of individuals, the published names, the published IDs and the parameter count
     `n_ids · n_hierarchical_dims + n_population_parameters` have the same length, and the IDs mark
